@@ -35,6 +35,12 @@ import (
 
 type c12 struct{}
 
+var (
+	c12LastKey    string
+	c12LastLib    *obingslibrary.NGSLibrary
+	c12LastWorker obiseq.SeqSliceWorker
+)
+
 func init() { props["C12"] = c12{} }
 
 type c12Sample struct{ ftag, rtag, name, exp, extra string }
@@ -523,17 +529,30 @@ func (c12) execDemux(f []string) (string, []Fail) {
 	sheet := c12Sheet(c)
 	var lib *obingslibrary.NGSLibrary
 	var worker obiseq.SeqSliceWorker
-	st := guardT(10*time.Second, func() string {
-		l, err := obiformats.ReadNGSFilter(strings.NewReader(sheet))
-		if err != nil {
-			return "sheet-error"
+	// the reads of one library follow each other: the sheet is read (and the worker built) once per run of identical
+	// (sheet, options) — every call of ReadNGSFilter registers one more CSV detector in the mimetype tree and slows the next ones
+	key := fmt.Sprintf("%d %v\n%s", c.e, c.indel, sheet)
+	st := "ok"
+	if key == c12LastKey && c12LastLib != nil {
+		lib, worker = c12LastLib, c12LastWorker
+		stat("demux.sheet-reused")
+	} else {
+		st = guardT(10*time.Second, func() string {
+			l, err := obiformats.ReadNGSFilter(strings.NewReader(sheet))
+			if err != nil {
+				return "sheet-error"
+			}
+			lib = l
+			worker = lib.ExtractMultiBarcodeSliceWorker(
+				obingslibrary.OptionAllowedMismatches(c.e),
+				obingslibrary.OptionAllowedIndel(c.indel))
+			return "ok"
+		})
+		c12LastKey, c12LastLib, c12LastWorker = "", nil, nil
+		if st == "ok" {
+			c12LastKey, c12LastLib, c12LastWorker = key, lib, worker
 		}
-		lib = l
-		worker = lib.ExtractMultiBarcodeSliceWorker(
-			obingslibrary.OptionAllowedMismatches(c.e),
-			obingslibrary.OptionAllowedIndel(c.indel))
-		return "ok"
-	})
+	}
 	if st != "ok" {
 		if st == "sheet-error" {
 			stat("demux.sheet-error")
@@ -888,8 +907,131 @@ func (p c12) Exec(cl string) (string, []Fail) {
 		}), nil
 	case "demux":
 		return p.execDemux(f[1:])
+	case "sheet":
+		return p.execSheet(f[1:])
 	}
 	return "bad-op", nil
+}
+
+// ------------------------------------------------------------------------------------------------
+// the sample sheet as read by ReadNGSFilter, compared with the model of the reader (Model/NgsFilter.lean)
+// ------------------------------------------------------------------------------------------------
+
+// sheet c <style> <nrec> nrec × [ <nf> nf × <field> ]     CSV records (fields in hex); style: 1 leading blanks before some
+//                                                          fields, 2 comment / blank lines, 4 CRLF, 8 no final newline
+// sheet o <nlines> nlines × <line>                         the lines of an old-format sheet
+func c12SheetText(f []string) (string, bool) {
+	p := &c12Toks{t: f}
+	var b strings.Builder
+	switch p.next() {
+	case "c":
+		style := p.int()
+		n := p.int()
+		if p.bad || n < 0 || n > 200 {
+			return "", false
+		}
+		nl := "\n"
+		if style&4 != 0 {
+			nl = "\r\n"
+		}
+		for i := 0; i < n; i++ {
+			nf := p.int()
+			if p.bad || nf < 1 || nf > 40 {
+				return "", false
+			}
+			if style&2 != 0 && i%2 == 1 {
+				b.WriteString("# a comment, with a comma" + nl + nl)
+			}
+			for j := 0; j < nf; j++ {
+				fld := p.hex()
+				if strings.ContainsAny(fld, ",\"\r\n") || strings.HasPrefix(fld, " ") || (j == 0 && (strings.HasPrefix(fld, "#") || (nf == 1 && fld == ""))) {
+					return "", false
+				}
+				if j > 0 {
+					b.WriteString(",")
+					if style&1 != 0 && (i+j)%3 == 0 {
+						b.WriteString("  ")
+					}
+				}
+				b.WriteString(fld)
+			}
+			if i+1 < n || style&8 == 0 {
+				b.WriteString(nl)
+			}
+		}
+	case "o":
+		n := p.int()
+		if p.bad || n < 0 || n > 200 {
+			return "", false
+		}
+		for i := 0; i < n; i++ {
+			l := p.hex()
+			if strings.ContainsAny(l, "\r\n") {
+				return "", false
+			}
+			b.WriteString(l + "\n")
+		}
+	default:
+		return "", false
+	}
+	if p.bad || len(p.t) != 0 {
+		return "", false
+	}
+	return b.String(), true
+}
+
+func c12Dump(lib *obingslibrary.NGSLibrary) string {
+	var ms []string
+	for pp, mk := range lib.Markers {
+		var smp []string
+		for tp, pcr := range mk.VerifSamples() {
+			var an []string
+			for k, v := range pcr.Annotations {
+				an = append(an, c12h(k)+"="+c12h(fmt.Sprint(v)))
+			}
+			sort.Strings(an)
+			smp = append(smp, c12h(tp.Forward)+":"+c12h(tp.Reverse)+"="+c12h(pcr.Sample)+"/"+c12h(pcr.Experiment)+"["+strings.Join(an, ",")+"]")
+		}
+		sort.Strings(smp)
+		head := fmt.Sprintf("%s %s %d %d %d %d %d %d %s %s %d %d %d %d %d %d %d", c12h(pp.Forward), c12h(pp.Reverse), mk.Forward_spacer, mk.Reverse_spacer,
+			mk.Forward_tag_delimiter, mk.Reverse_tag_delimiter, mk.Forward_tag_indels, mk.Reverse_tag_indels, mk.Forward_matching, mk.Reverse_matching,
+			mk.Forward_error, mk.Reverse_error, c12b(mk.Forward_allows_indels), c12b(mk.Reverse_allows_indels), mk.Forward_tag_length, mk.Reverse_tag_length, len(smp))
+		ms = append(ms, strings.Join(append([]string{head}, smp...), " "))
+	}
+	sort.Strings(ms)
+	var b strings.Builder
+	fmt.Fprintf(&b, "ok %d", len(ms))
+	for _, m := range ms {
+		b.WriteString(" ## " + m)
+	}
+	return b.String()
+}
+
+func (c12) execSheet(f []string) (string, []Fail) {
+	text, ok := c12SheetText(f)
+	if !ok {
+		return "bad-op", nil
+	}
+	run := func() string {
+		return guardT(10*time.Second, func() string {
+			lib, err := obiformats.ReadNGSFilter(strings.NewReader(text))
+			if err != nil {
+				return "sheet-error"
+			}
+			return c12Dump(lib)
+		})
+	}
+	res := run()
+	stat("sheet." + f[0] + "." + strings.SplitN(res, " ", 2)[0])
+	var fails []Fail
+	// the result must not depend on the iteration order of the Go maps of the library
+	for k := 0; k < 1; k++ {
+		if r2 := run(); r2 != res {
+			fails = append(fails, Fail{"sheet.nondeterministic", "two readings of the same sheet differ: " + res + "  VERSUS  " + r2})
+			break
+		}
+	}
+	return res, fails
 }
 
 // ------------------------------------------------------------------------------------------------
@@ -1123,6 +1265,27 @@ func c12Amplicon(rng *rand.Rand, c *c12Case, mi int, class int) c12Built {
 			dropR = true
 		}
 	case 4: // tag errors
+		// a tie: another sample declares a forward tag one substitution away; the observed tag takes a third base there
+		if rng.Intn(3) == 0 {
+			for _, s2 := range m.samples {
+				if len(s2.ftag) == len(ftag) && c12RefHamming(s2.ftag, ftag) == 1 {
+					b := []byte(ftag)
+					for p := range b {
+						if b[p] != s2.ftag[p] {
+							for _, x := range []byte("acgt") {
+								if x != b[p] && x != s2.ftag[p] && x != m.fdl {
+									b[p] = x
+									break
+								}
+							}
+						}
+					}
+					ftag = string(b)
+					stat("demux.tie-built")
+					break
+				}
+			}
+		}
 		indel := m.mode == "i" && rng.Intn(2) == 0
 		if rng.Intn(3) != 0 {
 			ftag = c12Mutate(rng, ftag, c12Without("acgt", m.fdl), indel && m.fdl != 0)
@@ -1202,7 +1365,16 @@ func c12Read(rng *rand.Rand, c *c12Case) {
 		namp = 3
 	}
 	var sb strings.Builder
-	sb.WriteString(c12Rand(rng, rng.Intn(25), "acgt"))
+	lflank, rflank := rng.Intn(25), rng.Intn(25)
+	if rng.Intn(6) == 0 { // the outermost tag touches the read end
+		lflank = 0
+		stat("demux.no-left-flank")
+	}
+	if rng.Intn(6) == 0 {
+		rflank = 0
+		stat("demux.no-right-flank")
+	}
+	sb.WriteString(c12Rand(rng, lflank, "acgt"))
 	sites := 0
 	expect := true
 	c.exps = nil
@@ -1224,9 +1396,13 @@ func c12Read(rng *rand.Rand, c *c12Case) {
 			class = 4
 		}
 		b := c12Amplicon(rng, c, mi, class)
-		// expectations are stated for fixed-length tags and mismatch-only primer matching
-		if m.fdl != 0 || m.rdl != 0 || m.fpi || m.rpi || c.indel {
+		// expectations are stated for fixed-length or delimited tags (theorem constructed_read_any_tags) and mismatch-only
+		// primer matching; not for the rescue extractors (delimiter + tag indels)
+		if (m.fdl != 0 && m.fin != 0) || (m.rdl != 0 && m.rin != 0) || m.fpi || m.rpi || c.indel {
 			expect = false
+		}
+		if m.fdl != 0 || m.rdl != 0 {
+			stat("demux.delimited-marker")
 		}
 		text := b.text
 		kinds := b.kinds
@@ -1260,7 +1436,7 @@ func c12Read(rng *rand.Rand, c *c12Case) {
 			sb.WriteString(c12Rand(rng, rng.Intn(12), "acgt"))
 		}
 	}
-	sb.WriteString(c12Rand(rng, rng.Intn(25), "acgt"))
+	sb.WriteString(c12Rand(rng, rflank, "acgt"))
 	c.seq = []byte(sb.String())
 	if rng.Intn(25) == 0 && len(c.seq) > 10 { // truncated read
 		c.seq = c.seq[rng.Intn(10) : len(c.seq)-rng.Intn(10)]
@@ -1272,6 +1448,257 @@ func c12Read(rng *rand.Rand, c *c12Case) {
 		c.cls = "free"
 		c.exps = nil
 	}
+}
+
+// ------------------------------------------------------------------------------------------------
+// generator of sample sheets for the reader (`sheet` cases)
+// ------------------------------------------------------------------------------------------------
+
+func c12Pick(rng *rand.Rand, xs ...string) string { return xs[rng.Intn(len(xs))] }
+
+func c12MaybeUp(rng *rand.Rand, s string) string {
+	if rng.Intn(4) == 0 {
+		return strings.ToUpper(s)
+	}
+	return s
+}
+
+type c12Row struct{ exp, smp, tags, fp, rp string }
+
+// rows of 1..3 markers; nasty: the row set contains, rarely, a duplicated tag pair, a primer used by two markers, a marker
+// with twice the same primer, tags of different lengths
+func c12SheetRows(rng *rand.Rand, nasty bool) (rows []c12Row, primers []string) {
+	bad := func(n int) bool { return nasty && rng.Intn(n) == 0 }
+	k := 1 + rng.Intn(3)
+	for i := 0; i < k; i++ {
+		fp, rp := c12Rand(rng, 6+rng.Intn(4), "acgt"), c12Rand(rng, 6+rng.Intn(4), "acgt")
+		if i > 0 && bad(8) {
+			fp = primers[rng.Intn(len(primers))]
+		}
+		if bad(12) {
+			rp = fp
+		}
+		primers = append(primers, fp, rp)
+		lens := []int{0, 2, 3, 4, 5, 6}
+		fl, rl := lens[rng.Intn(6)], lens[rng.Intn(6)]
+		if rng.Intn(3) == 0 {
+			rl = fl
+		}
+		ns := 1 + rng.Intn(4)
+		if fl+rl == 0 && !nasty {
+			ns = 1
+		}
+		for j := 0; j < ns; j++ {
+			f, r := c12Rand(rng, fl, "acgt"), c12Rand(rng, rl, "acgt")
+			if bad(12) {
+				f += "a"
+			}
+			var tags string
+			switch {
+			case f == "" && r == "":
+				tags = c12Pick(rng, "-:-", "", ":", "-:")
+			case f == "":
+				tags = "-:" + r
+			case r == "":
+				tags = f + c12Pick(rng, ":-", ":")
+			case fl == rl && rng.Intn(2) == 0: // the short form: the same tag on both sides
+				tags = f
+			case rng.Intn(20) == 0:
+				tags = f + ":" + r + ":" + r
+			default:
+				tags = f + ":" + r
+			}
+			if bad(15) {
+				tags = "-"
+			}
+			rows = append(rows, c12Row{fmt.Sprintf("e%d", rng.Intn(2)), fmt.Sprintf("s%d_%d", i, j), c12MaybeUp(rng, tags), c12MaybeUp(rng, fp), c12MaybeUp(rng, rp)})
+			if bad(12) {
+				rows = append(rows, rows[len(rows)-1])
+			}
+		}
+	}
+	rng.Shuffle(len(rows), func(i, j int) { rows[i], rows[j] = rows[j], rows[i] })
+	return
+}
+
+var c12ParamNames = []string{"spacer", "forward_spacer", "reverse_spacer", "tag_delimiter", "forward_tag_delimiter", "reverse_tag_delimiter",
+	"matching", "primer_mismatches", "forward_mismatches", "reverse_mismatches", "tag_indels", "forward_tag_indels", "reverse_tag_indels",
+	"indels", "forward_indels", "reverse_indels"}
+
+func c12ParamValue(rng *rand.Rand, name string, nasty bool) string {
+	nasty = nasty && rng.Intn(4) == 0
+	switch {
+	case name == "matching":
+		if nasty {
+			return c12Pick(rng, "Hamming", "x", "", "strict ")
+		}
+		return c12Pick(rng, "strict", "hamming", "indel")
+	case strings.Contains(name, "delimiter"):
+		if nasty {
+			return c12Pick(rng, "n", "N", "", "at", "1", "-")
+		}
+		return c12Pick(rng, "a", "c", "g", "t", "A", "T", "0", "0", "gg")
+	case name == "indels" || name == "forward_indels" || name == "reverse_indels":
+		if nasty {
+			return c12Pick(rng, "TRUE", "yes", "1", "")
+		}
+		return c12Pick(rng, "true", "false")
+	case name == "zzz_unknown":
+		return c12Pick(rng, "1", "x", "")
+	default:
+		if nasty {
+			return c12Pick(rng, "x", "3 ", "", "1.5", "1_0", "0x2", "99999999999999999999", "-", "+")
+		}
+		return c12Pick(rng, "0", "1", "2", "3", "4", "+2", "-1", "007", "12")
+	}
+}
+
+func c12ParamRecord(rng *rand.Rand, primers []string, nasty bool) []string {
+	name := c12ParamNames[rng.Intn(len(c12ParamNames))]
+	if rng.Intn(20) == 0 {
+		name = c12Pick(rng, "zzz_unknown", "Spacer", "")
+	}
+	if name == "matching" && !nasty && rng.Intn(2) == 0 { // (a lone bad value is fatal: keep most sheets alive)
+		name = "spacer"
+	}
+	rec := []string{"@param", name}
+	family := name == "spacer" || name == "tag_delimiter" || name == "primer_mismatches" || name == "tag_indels" || name == "indels"
+	switch x := rng.Intn(40); {
+	case x == 0 && nasty: // no value
+		if rng.Intn(3) == 0 {
+			return []string{"@param"}
+		}
+		return rec
+	case x == 1 && (nasty || name == "tag_indels"): // three values
+		return append(rec, c12Pick(rng, primers...), c12ParamValue(rng, name, nasty), c12ParamValue(rng, name, nasty))
+	case x < 20 && (family || (nasty && x < 6)): // per-primer form (when nasty: also for the names that do not accept it)
+		pr := c12MaybeUp(rng, c12Pick(rng, primers...))
+		if rng.Intn(10) == 0 {
+			pr = c12Pick(rng, "acgtacgt", "", "nnnn")
+		}
+		return append(rec, pr, c12ParamValue(rng, name, nasty))
+	}
+	return append(rec, c12ParamValue(rng, name, nasty))
+}
+
+func c12EncodeRecords(style int, recs [][]string) (string, bool) {
+	var b strings.Builder
+	fmt.Fprintf(&b, "sheet c %d %d", style, len(recs))
+	for _, r := range recs {
+		fmt.Fprintf(&b, " %d", len(r))
+		for j, f := range r {
+			if j == 0 && (strings.HasPrefix(f, "#") || (len(r) == 1 && f == "")) {
+				return "", false
+			}
+			b.WriteString(" " + c12h(f))
+		}
+	}
+	return b.String(), true
+}
+
+func c12GenCsvSheet(rng *rand.Rand) (string, bool) {
+	nastyRows, nastyParams, nastyShape := rng.Intn(5) == 0, rng.Intn(4) == 0, rng.Intn(6) == 0
+	rows, primers := c12SheetRows(rng, nastyRows)
+	var recs [][]string
+	for n := []int{0, 1, 2, 3, 5, 8, 12}[rng.Intn(7)]; n > 0; n-- {
+		recs = append(recs, c12ParamRecord(rng, primers, nastyParams))
+	}
+	cols := []string{"experiment", "sample", "sample_tag", "forward_primer", "reverse_primer"}
+	for n := rng.Intn(3); n > 0; n-- {
+		cols = append(cols, c12Pick(rng, "note", "site", "note", "Sample", "x"))
+	}
+	rng.Shuffle(len(cols), func(i, j int) { cols[i], cols[j] = cols[j], cols[i] })
+	switch rng.Intn(20) {
+	case 0:
+		if nastyShape {
+			cols = cols[:len(cols)-1] // (possibly) a required column is missing
+		}
+	case 1:
+		cols = append(cols, c12Pick(rng, "sample", "forward_primer", "sample_tag")) // a required column twice: the last one wins
+	}
+	recs = append(recs, cols)
+	if nastyShape && rng.Intn(6) == 0 {
+		rows = nil // header only
+	}
+	for i, r := range rows {
+		val := map[string]string{"experiment": r.exp, "sample": r.smp, "sample_tag": r.tags, "forward_primer": r.fp, "reverse_primer": r.rp}
+		rec := make([]string, len(cols))
+		seen := map[string]int{}
+		for j, cn := range cols {
+			if v, ok := val[cn]; ok {
+				rec[j] = v
+				if seen[cn] > 0 { // the second column of the same name carries another value
+					rec[j] = v + "x"
+				}
+				seen[cn]++
+			} else {
+				rec[j] = c12Pick(rng, "v"+c12Rand(rng, 2, "xyz"), "", "two words", "v"+strconv.Itoa(i))
+			}
+		}
+		if nastyShape {
+			switch rng.Intn(15) {
+			case 0:
+				rec = rec[:len(rec)-1]
+			case 1:
+				rec = append(rec, "extra")
+			case 2:
+				recs = append(recs, c12ParamRecord(rng, primers, false)) // an @param line after the header
+			}
+		}
+		recs = append(recs, rec)
+	}
+	return c12EncodeRecords(rng.Intn(16), recs)
+}
+
+func c12GenOldSheet(rng *rand.Rand) string {
+	nasty := rng.Intn(4) == 0
+	rows, _ := c12SheetRows(rng, nasty && rng.Intn(2) == 0)
+	var lines []string
+	sep := func() string { return c12Pick(rng, " ", "\t", "  ", " \t ") }
+	for _, r := range rows {
+		if rng.Intn(6) == 0 {
+			lines = append(lines, c12Pick(rng, "# a comment", "", "   ", "#", "\t", "  # indented comment"))
+		}
+		fl := []string{r.exp, r.smp, r.tags, r.fp, r.rp, c12Pick(rng, "F", "T", "x")}
+		if r.tags == "" {
+			fl[2] = "-:-"
+		}
+		if nasty {
+			switch rng.Intn(15) {
+			case 0:
+				fl = fl[:5]
+			case 1:
+				fl = append(fl, "G")
+			}
+		}
+		var l strings.Builder
+		l.WriteString(c12Pick(rng, "", "", " ", "\t"))
+		for j, f := range fl {
+			if j > 0 {
+				l.WriteString(sep())
+			}
+			l.WriteString(f)
+		}
+		switch rng.Intn(8) {
+		case 0:
+			l.WriteString(" @")
+		case 1:
+			l.WriteString(" @ note=v" + c12Rand(rng, 3, "xyzq") + ";")
+		case 2:
+			l.WriteString("@site=v" + c12Rand(rng, 2, "xyzq") + "; note=v" + c12Rand(rng, 2, "xyzq") + ";")
+		case 3:
+			l.WriteString(" @ note=vab; note=vcd;")
+		case 4:
+			l.WriteString("  ")
+		}
+		lines = append(lines, l.String())
+	}
+	var b strings.Builder
+	fmt.Fprintf(&b, "sheet o %d", len(lines))
+	for _, l := range lines {
+		b.WriteString(" " + c12h(l))
+	}
+	return b.String()
 }
 
 func (c12) Gen(rng *rand.Rand, tier string, emit func(string)) {
@@ -1387,10 +1814,73 @@ func (c12) Gen(rng *rand.Rand, tier string, emit func(string)) {
 	//    complemented-reverse hits are not even collected (no forward hit there) and F..CR comes out as a barcode
 	emit("demux c 16 0 0 1 74616163616161616363636161616163676763 67676174746361617461676167676174747467636163 2 0 0 0 0 0 h 1 1 0 0 2 746367746763 747461616367 73305f30 65787030 - 676167676763 616174676367 73305f31 65787031 - 7265616431 747474746763636361617467676761676767636163746161636161616163636361616161636767636367616761616161746374676363676367636161676361616363676361747467637461676367637474616163676767617474636161746167616767617474746763616363616361747463616361746367746763617461677467617461676363677474747467616374747474677474616761676361636761746361617467676167676763616774616167616161746363636161616163676774636774636763616363637463747467637467746167677467616367636763636774636374677474676167636361616167636767616367677467636161617463637463746174746761617463636367636174746774637474676374676361676763 cls c3 exp 3 - x 0 - - - 74616163616161616363636161616163676763 - 0 0 - x 0 - - - - 67676174746361617461676167676174747467636163 0 0 - x 0 - - - - 67676174746361617461676167676174747467636163 0 0")
 
+	// ---- sample sheets: hand-picked --------------------------------------------------------------
+	{
+		hdr := []string{"experiment", "sample", "sample_tag", "forward_primer", "reverse_primer"}
+		r1 := []string{"e", "s1", "aacc:ggtt", "ACGTACGT", "ttgattga"}
+		r2 := []string{"e", "s2", "aacg:ggtt", "acgtacgt", "TTGATTGA"}
+		r3 := []string{"e", "s3", "cc:gg", "ggggcccc", "aaaatttt"}
+		one := func(recs ...[]string) {
+			if l, ok := c12EncodeRecords(0, recs); ok {
+				emit(l)
+			}
+		}
+		P := func(f ...string) []string { return append([]string{"@param"}, f...) }
+		one(hdr, r1, r2, r3)
+		one(hdr, r1)
+		one(hdr)
+		one(P("spacer", "3"), hdr)
+		one(P("spacer", "3"), hdr, r1, r2)
+		one(P("spacer", "3"), P("spacer", "ACGTACGT", "1"), P("spacer", "ttgattga", "2"), P("spacer", "aaaatttt", "5"), P("spacer", "cccc", "9"), hdr, r1, r2, r3)
+		one(P("spacer", "ACGTACGT", "1"), P("spacer", "3"), hdr, r1, r2, r3)
+		one(P("forward_spacer", "1"), P("reverse_spacer", "2"), P("tag_delimiter", "A"), P("tag_delimiter", "ggggcccc", "0"), P("tag_indels", "1"), hdr, r1, r3)
+		one(P("tag_delimiter", "N"), hdr, r1)
+		one(P("tag_delimiter", ""), hdr, r1)
+		one(P("tag_delimiter", "cccc", "N"), hdr, r1)
+		one(P("tag_delimiter", "acgtacgt", "N"), hdr, r1)
+		one(P("matching", "hamming"), P("primer_mismatches", "0"), P("primer_mismatches", "ttgattga", "4"), P("indels", "true"), P("indels", "acgtacgt", "false"), hdr, r1, r2)
+		one(P("matching", "Hamming"), hdr, r1)
+		one(P("matching", "acgtacgt", "indel"), hdr, r1)
+		one(P("tag_indels", "1", "2", "3"), hdr, r1)
+		one(P("spacer", "1", "2", "3"), hdr, r1)
+		one(P("forward_spacer", "acgtacgt", "2"), hdr, r1)
+		one(P("spacer"), hdr, r1)
+		one(P(), hdr, r1)
+		one(P("unknown", "1"), P("spacer", "x"), hdr, r1)
+		one(P("spacer", "3 "), hdr, r1)
+		one(P("spacer", "+3"), P("reverse_spacer", "-1"), hdr, r1)
+		one(hdr, r1, r1)
+		one(hdr, r1, []string{"e", "s2", "aac:ggtt", "acgtacgt", "ttgattga"})
+		one(hdr, r1, []string{"e", "s2", "aacc:ggtt", "acgtacgt", "aaaatttt"})
+		one(hdr, r1, []string{"e", "s2", "aacc:ggtt", "ggggcccc", "ggggcccc"})
+		one(hdr, r1, []string{"e", "s2", "aacc:ggtt", "acgtacgt"})
+		one(hdr, r1, P("spacer", "3", "x", "y"))
+		one(append([]string{"note"}, hdr...), append([]string{"vx"}, r1...), append([]string{"vy"}, r2...))
+		one([]string{"experiment", "sample", "sample_tag", "forward_primer"}, []string{"e", "s1", "aacc:ggtt", "acgtacgt"}, []string{"e", "s2", "aacg:ggtt", "acgtacgt"})
+		one([]string{"sample", "experiment", "sample", "sample_tag", "forward_primer", "reverse_primer"}, []string{"first", "e", "second", "-:gg", "acgtacgt", "ttgattga"}, []string{"first", "e", "third", "-", "ggggcccc", "aaaatttt"})
+		for _, ls := range [][]string{
+			{"e s1 aacc:ggtt acgtacgt ttgattga F", "e\ts2  aacg:ggtt ACGTACGT\tTTGATTGA F @ note=vx;"},
+			{"# comment", "", "   ", "e s1 aacc acgtacgt ttgattga F @", " e s2 -:gg ggggcccc aaaatttt F@note=vx; site=vy;"},
+			{"e s1 aacc:ggtt acgtacgt ttgattga"},
+			{"e s1 aacc:ggtt acgtacgt ttgattga F G"},
+			{"e s1 aacc:ggtt acgtacgt ttgattga F", "e s2 aacc:ggtt acgtacgt ttgattga F"},
+			{"e s1 aacc:ggtt acgtacgt ttgattga F", "e s2 aac:ggtt acgtacgt ttgattga F"},
+			{"e s1 aacc:ggtt acgtacgt ttgattga F", "e s2 aacc:ggtt ttgattga ggggcccc F"},
+			{},
+			{"# only a comment"},
+		} {
+			l := fmt.Sprintf("sheet o %d", len(ls))
+			for _, x := range ls {
+				l += " " + h(x)
+			}
+			emit(l)
+		}
+	}
+
 	// ---- random cases ----------------------------------------------------------------------------
-	nlib, nread, nunit := 300, 12, 1500
+	nlib, nread, nunit, nsheet := 300, 12, 1500, 900
 	if tier == "thorough" {
-		nlib, nread, nunit = 400, 12, 2500
+		nlib, nread, nunit, nsheet = 400, 12, 2500, 2500
 	}
 	for i := 0; i < nunit; i++ {
 		alpha := []string{"acgt", "ac", "a"}[rng.Intn(3)]
@@ -1418,6 +1908,15 @@ func (c12) Gen(rng *rand.Rand, tier string, emit func(string)) {
 		for j := 0; j < nread; j++ {
 			c12Read(rng, c)
 			emit(c.line())
+		}
+	}
+	// the sample sheets last: every call of ReadNGSFilter registers one more copy of the CSV detector in the mimetype tree
+	// (OBIMimeNGSFilterTypeGuesser), which makes the later readings of old-format sheets slower and slower
+	for i := 0; i < nsheet; i++ {
+		if rng.Intn(4) == 0 {
+			emit(c12GenOldSheet(rng))
+		} else if l, ok := c12GenCsvSheet(rng); ok {
+			emit(l)
 		}
 	}
 }
